@@ -116,7 +116,25 @@ theorem no_deadlock_needs_capacity :
 --   the regenerated shape facts (`source_protocol_facts`, `accessed_under_lock`) plus the runtime monitor and the
 --   differential runs of the harness.
 
-example : SnapP.reading { pc := .hdr } = true := rfl
+/- non-vacuity of `snapshot_reads_block_consistent` on REACHABLE states: after an undo and Idle the saver is iterating the maps
+   (`.loop`, one of three chunks read) of a block-consistent state at version 2; the same with the saver at `.hdr` after a commit -/
+example :
+    let st := Snap.run (Snap.init [.undo, .idle, .purge] [] 2) (List.replicate 15 .m ++ [.sStep, .sBegin 3, .sStep])
+    (st.s.map (fun sv => (sv.pc, SnapP.reading sv))) = some (.loop, true) ∧ st.stable = true ∧ st.ver = 2 := by decide
+
+example :
+    let st := Snap.run (Snap.init [.commit, .idle] [] 2) (List.replicate 15 .m ++ [.sStep])
+    (st.s.map (fun sv => (sv.pc, SnapP.reading sv))) = some (.hdr, true) ∧ st.stable = true := by decide
+
+/- non-vacuity of `single_saver` on a REACHABLE state: the first saver has cleared WritingInProgress but has not yet done
+   writingDone.Done() (`.done`), the main goroutine has committed another block and is inside the next Save (`sAdd`).
+   NOTE (model ≠ code here): one step later (`sGo`) the MODEL makes the main goroutine wait until that old saver object is gone,
+   whereas `go db.save()` never blocks in Go — the model serialises "old saver between WritingInProgress.Clr() and
+   writingDone.Done()" with "new saver starts"; the old saver only does Done() there. -/
+example :
+    let st := Snap.run (Snap.init [.commit, .idle, .commit, .idle] [] 2)
+      (List.replicate 15 .m ++ [.sStep, .sBegin 1, .sStep, .sStep, .sStep, .sStep] ++ List.replicate 12 .m)
+    SnapP.inSave st.mpc = true ∧ st.s.map (·.pc) = some .done ∧ st.wip = true ∧ st.wdone = 1 := by decide
 
 /-- (c) A goroutine that observed WritingInProgress = false in Save and is about to start the saver finds no
     earlier saver that could still clear the flag: two savers are never reading at the same time. -/
@@ -172,6 +190,12 @@ theorem unclone_counterexample :
     (Fan.run f (Fan.init txs false) [.main, .main, .main, .worker 0, .worker 0, .main]).verdict = some (none, 1) := by
   decide
 
+/- HYPOTHESIS NOT TIED TO THE SOURCE: `(us.map (·.1)).Nodup` below.  UnspentDB.commit buckets its updates by UtxoKeyType = the FIRST
+   8 BYTES of the txid (changes.DeledTxs is keyed by the full 32-byte txid, AddList holds full records, but the map the workers write
+   is keyed by the prefix).  Two different transactions created or spent by ONE block whose txids share 8 bytes would make two
+   workers (do_add / do_del run concurrently) write the same key: the lemma then says nothing.  Such a collision needs about 2^32
+   hash evaluations; it is an ASSUMPTION of the check (named in the manifest), checked only on the blocks the harness runs
+   (histogram commit:update-keys-distinct).  The lemma itself is algebra about `applyAll`; the oracle does not execute it. -/
 /-- (b) UnspentDB.commit: add/delete workers touch pairwise different keys, each under its bucket mutex, so every
     order in which the critical sections are executed yields the same maps. -/
 theorem disjoint_updates_commute (us vs : List (Nat × Option Nat)) (hp : us.Perm vs)
